@@ -138,3 +138,49 @@ package objects
 //@   ensures[allornothing] err != nil ==> (forall q *Queue :: q.allocatedResource == old(q.allocatedResource))
 //@   ensures[frame] forall q *Queue :: !anc(sq, q) ==> q.allocatedResource == old(q.allocatedResource)
 //@   ensures[args] unch(alloc)
+
+//@ func (sq *Queue) DecAllocatedResource(alloc *resources.Resource) (err error)
+//@   props C02 C03
+//@   mode nopanic=off
+//@   assigns all Queue.allocatedResource
+//@   ensures[nilq] sq == nil ==> err != nil
+//@   ensures[booked] err == nil ==> (forall q *Queue, t Key :: anc(sq, q) ==> rv(q.allocatedResource, t) == clamp64(old(rv(q.allocatedResource, t)) - rv(alloc, t)))
+//@   ensures[nonneg] err == nil && alloc != nil ==> (forall q *Queue, t Key :: anc(sq, q) && has(alloc, t) && rv(alloc, t) > 0 ==> rv(q.allocatedResource, t) >= 0)
+//@   ensures[allornothing] err != nil ==> (forall q *Queue, t Key :: rv(q.allocatedResource, t) == old(rv(q.allocatedResource, t)))
+//@   ensures[frame] forall q *Queue, t Key :: !anc(sq, q) ==> rv(q.allocatedResource, t) == old(rv(q.allocatedResource, t))
+
+//@ func (sq *Queue) incPendingResource(delta *resources.Resource)
+//@   props C03
+//@   mode nopanic=off
+//@   assigns all Queue.pending
+//@   ensures[booked] forall q *Queue, t Key :: anc(sq, q) ==> rv(q.pending, t) == clamp64(old(rv(q.pending, t)) + rv(delta, t))
+//@   ensures[frame] forall q *Queue :: !anc(sq, q) ==> q.pending == old(q.pending)
+//@   ensures[args] unch(delta)
+
+// the effective headroom is never looser than what any ancestor's maximum leaves, on every type that maximum defines
+//@ func (sq *Queue) internalHeadRoom(parentHeadRoom *resources.Resource) (hr *resources.Resource)
+//@   props C02
+//@   mode nopanic=off
+//@   assigns nothing
+//@   ensures[own] forall t Key :: has(sq.maxResource, t) ==> has(hr, t) && rv(hr, t) <= clamp64(rv(sq.maxResource, t) - rv(sq.allocatedResource, t))
+//@   ensures[parent] forall t Key :: has(parentHeadRoom, t) ==> has(hr, t) && rv(hr, t) <= rv(parentHeadRoom, t)
+
+//@ func (sq *Queue) getHeadRoom() (hr *resources.Resource)
+//@   props C02
+//@   mode nopanic=off
+//@   assigns nothing
+//@   ensures[sound] forall q *Queue, t Key :: anc(sq, q) && has(q.maxResource, t) ==> has(hr, t) && rv(hr, t) <= clamp64(rv(q.maxResource, t) - rv(q.allocatedResource, t))
+
+//@ func (sq *Queue) internalGetMax(parentLimit *resources.Resource) (m *resources.Resource)
+//@   props C02
+//@   mode nopanic=off
+//@   assigns nothing
+//@   ensures[own] forall t Key :: has(sq.maxResource, t) ==> has(m, t) && rv(m, t) <= rv(sq.maxResource, t)
+//@   ensures[parent] forall t Key :: has(parentLimit, t) ==> has(m, t) && rv(m, t) <= rv(parentLimit, t)
+
+// the effective maximum of a queue is never looser than the maximum of any ancestor
+//@ func (sq *Queue) GetMaxResource() (m *resources.Resource)
+//@   props C02
+//@   mode nopanic=off
+//@   assigns nothing
+//@   ensures[tight] forall q *Queue, t Key :: anc(sq, q) && has(q.maxResource, t) ==> has(m, t) && rv(m, t) <= rv(q.maxResource, t)
